@@ -344,7 +344,7 @@ func (g *gen) requestLane() []inputSpec {
 	t("scheme-and-space", "Bearer ")
 	t("no-scheme", good)
 	t("basic-scheme", "Basic dTpw")
-	t("lowercase-scheme", "bearer "+good)
+	t("lowercase-scheme", "bearer "+good) // schemes are case-insensitive (RFC 9110 11.1): valid credentials, see expectation below
 	t("double-space", "Bearer  "+good+"x")
 	t("one-segment", "Bearer abc")
 	t("two-segments", "Bearer "+okH+"."+okP)
@@ -355,7 +355,7 @@ func (g *gen) requestLane() []inputSpec {
 	t("six-segments", "Bearer a.b.c.d.e.f")
 	t("dots-only-1000", "Bearer "+strings.Repeat(".", 1000))
 	t("header-not-base64", "Bearer "+tok("@@@", okP, okS))
-		t("header-std-base64-chars", "Bearer "+tok("+/+/", okP, okS))
+	t("header-std-base64-chars", "Bearer "+tok("+/+/", okP, okS))
 	t("payload-not-base64", "Bearer "+tok(okH, "@@@", okS))
 	t("signature-not-base64", "Bearer "+tok(okH, okP, "@@@"))
 	t("signature-empty", "Bearer "+okH+"."+okP+".")
@@ -408,7 +408,11 @@ func (g *gen) requestLane() []inputSpec {
 			if route == "/jwtmd/x" && !g.thorough && len(v.n)%3 != 0 {
 				continue
 			}
-			add("token", v.n+"@"+route, "decision", "error", rawReq("GET", route, []string{"Authorization: " + v.v}, ""))
+			expect := "error"
+			if v.n == "lowercase-scheme" {
+				expect = "any"
+			}
+			add("token", v.n+"@"+route, "decision", expect, rawReq("GET", route, []string{"Authorization: " + v.v}, ""))
 		}
 	}
 	// header level oddities around the credentials
